@@ -214,6 +214,9 @@ class C04(Prop):
         except impl.exceptions.SchemaError as e:
             schema_ok = False
             cs_err = e
+        except impl.exceptions.ValidationError as e:
+            res.fail(("check_schema-raises-ValidationError-not-SchemaError",), "schema=%s: %r" % (impl.cj(s)[:200], e))
+            return res
         except Exception as e:
             res.excluded = "check_schema-raises(C11):" + impl.tname(e)
             return res
